@@ -149,7 +149,13 @@ func main() {
 		name := fmt.Sprintf("tc%d", i)
 		ffiPkgs[name] = fmt.Sprintf("package %s\n\nfunc Wrong%d() uint64 {\n\treturn \"not a number %d\"\n}\n", name, i, i)
 	}
-	special := []string{"tc0", "tc1", "tc2", "tc3", "tc4", "sv0", "sv1", "sv2", "sv3", "blk/store", "mem/store", "fasync", "fdisk", "fnone"}
+	// a package with errors attributed to parameter fields, next to packages that print Go text into comments
+	ffiPkgs["vfield"] = "package vfield\n\nfunc Sum(xs ...uint64) uint64 {\n\treturn uint64(len(xs))\n}\n\nfunc Two(a, b uint64) uint64 {\n\treturn a + b\n}\n\nfunc Unnamed(uint64) uint64 {\n\treturn 1\n}\n"
+	for i := 0; i < 3; i++ {
+		name := fmt.Sprintf("logp%d", i)
+		ffiPkgs[name] = fmt.Sprintf("package %s\n\nimport \"log\"\n\nfunc Hello(x uint64) uint64 {\n\tlog.Printf(\"hello %%d from %d\", x)\n\tlog.Println(\"bye\", x)\n\treturn x\n}\n", name, i)
+	}
+	special := []string{"vfield", "logp0", "logp1", "logp2", "tc0", "tc1", "tc2", "tc3", "tc4", "sv0", "sv1", "sv2", "sv3", "blk/store", "mem/store", "fasync", "fdisk", "fnone"}
 	for _, name := range special {
 		dir := filepath.Join(mod, "g", name)
 		os.MkdirAll(dir, 0o755)
